@@ -284,7 +284,9 @@ pub fn run_filtered(target: &str, data: &[u8], only: Option<&str>) -> (&'static 
         }
         "tlv_view" => ("C12", c12::check_bytes(data)),
         "stream_reader" => {
-            let block = c.u8();
+            // Block sizes up to 4096 only: half-megabyte arena chunks poisoned byte by byte
+            // under AddressSanitizer make an execution take tenths of a second.
+            let block = [0u8, 1, 2, 3, 4, 5, 6, 7, 8, 9, 12, 13, 14, 15][(c.u8() % 14) as usize];
             let arena_prep = c.u8() % 7;
             let n = (c.u8() % 8) as usize;
             let script = (0..n)
